@@ -402,3 +402,74 @@ Print Assumptions T.C13_define_header_nospace.
 Print Assumptions T.C13_define_header_fixed_space.
 Print Assumptions T.C13_define_header_fixed_agrees.
 Print Assumptions T.C13_define_header_examples.
+
+(* ================================================================== round 6: Segment.flattened() at any depth; RPN expressions *)
+From Cheetah Require Import Parse.LatticeLangFlat Parse.LatticeLangFlatProofs Parse.Rpn Parse.RpnProofs.
+
+Module T2.
+Import PrimFloat.
+
+(* Segment.flattened() (transcribed as the code is written: a sub-segment contributes the elements of its own flattened copy) of a
+   converted segment keeps the name and lists the leaves of the tree in order, at ANY nesting depth ... *)
+Theorem C13_flattened_is_leaves : forall n ch, flattened (CSeg n ch) = CSeg n (leaves (CSeg n ch)).
+Proof. exact flattened_is_leaves. Qed.
+
+(* ... so no sub-line is left over among its elements, flattening twice changes nothing ... *)
+Theorem C13_flattened_no_subsegment : forall n ch,
+  forallb (fun t => match t with CLeaf _ _ _ => true | CSeg _ _ => false end) (children (flattened (CSeg n ch))) = true.
+Proof. exact flattened_no_subsegment. Qed.
+
+Theorem C13_flattened_idempotent : forall t, flattened (flattened t) = flattened t.
+Proof. exact flattened_idempotent. Qed.
+
+(* ... and the imported line, flattened, is the in-order traversal [flat] of the selected line (nested and repeated lines included) *)
+Theorem C13_flattened_expand_is_inorder : forall fuel fl c name items t ls,
+  get c name = Some (VLine items) -> expand fuel fl c name = Some t -> flat fuel fl c name = Some ls ->
+  flattened t = CSeg (Some name) ls.
+Proof. exact flattened_expand_is_inorder. Qed.
+
+(* a one-level splice (the elements of a sub-segment taken as they are) is a different function from depth 3 on *)
+Example C13_flattened_depth3 :
+  let q := CLeaf "Marker" "q" [] in
+  let ring := CSeg (Some "ring") [CSeg (Some "arc") [CSeg (Some "cell") [q]]] in
+  ctree_eqb (splice_once ring) (flattened ring) = false /\ flattened ring = CSeg (Some "ring") [q].
+Proof. exact splice_once_differs. Qed.
+
+(* RPN: the stack machine, run on the post-order rendering of an expression tree, yields the value of the tree
+   (None exactly where the evaluation of the tree raises) *)
+Theorem C13_rpn_of_ast_eval : forall c e, eval_rpn c (rpn_of e) = evalf c e.
+Proof. exact rpn_of_ast_eval. Qed.
+
+(* operand order:  A B op  is  A op B  -- the right operand of the operator is the one pushed last *)
+Theorem C13_rpn_binary_order : forall c a b o,
+  eval_rpn c (rpn_of a ++ rpn_of b ++ [KOp o])%list =
+  match evalf c a with
+  | Some x => match evalf c b with Some y => apply_bin o x y | None => None end
+  | None => None
+  end.
+Proof. exact rpn_binary_order. Qed.
+
+(* the three-token form cheetah accepts (rpn.eval_expression: eval("A op B")) is that reading and the value of the tree a op b *)
+Theorem C13_rpn3_is_eval_rpn : forall c a b o,
+  rpn3 c a b o = eval_rpn c (rpn_of a ++ rpn_of b ++ [KOp o])%list /\ rpn3 c a b o = evalf c (ebin o a b).
+Proof. exact rpn3_is_eval_rpn. Qed.
+
+Example C13_rpn_order_matters :
+  eval_rpn ctx0 [KNum 2%float; KNum 0.75%float; KOp OSub] = Some 1.25%float /\
+  eval_rpn ctx0 [KNum 0.75%float; KNum 2%float; KOp OSub] = Some (-1.25)%float /\
+  eval_rpn ctx0 [KNum 1.5%float; KNum (-2)%float; KOp ODiv] = Some (-0.75)%float /\
+  eval_rpn ctx0 [KNum 3%float; KNum 1%float; KNum 2%float; KOp OAdd; KOp OSub] = Some 0%float /\
+  eval_rpn ctx0 [KNum 1%float; KOp OAdd] = None /\ eval_rpn ctx0 [KNum 1%float; KNum 2%float] = None.
+Proof. exact rpn_order_matters. Qed.
+
+End T2.
+
+Print Assumptions T2.C13_flattened_is_leaves.
+Print Assumptions T2.C13_flattened_no_subsegment.
+Print Assumptions T2.C13_flattened_idempotent.
+Print Assumptions T2.C13_flattened_expand_is_inorder.
+Print Assumptions T2.C13_flattened_depth3.
+Print Assumptions T2.C13_rpn_of_ast_eval.
+Print Assumptions T2.C13_rpn_binary_order.
+Print Assumptions T2.C13_rpn3_is_eval_rpn.
+Print Assumptions T2.C13_rpn_order_matters.
